@@ -139,11 +139,13 @@ package clickhouse_planner
 //@ func (*LineFilterPlanner).doLike [C07]
 //@   modifies nothing
 //@   ensures result1 == nil ==> isRawCmp(result0)
-// The substring pattern: % + the literal's body with all wildcards escaped + %.
+// The substring pattern: % + the escaped text of the value (the body of its SQL
+// literal, without the two delimiting quotes and nothing else removed) with all LIKE
+// wildcards escaped + %.
 //@ func (*LineFilterPlanner).doLikeVal [C07,C10]
 //@   modifies nothing
 //@   ensures result1 == nil ==> isRawCmp(result0)
-//@   ensures pattern: result1 == nil ==> unbox(unbox(result0, "*sql.LogicalOp").clauses[0], "*sql.RawObject").val == likeOp + "(samples.string, '%" + likeLiteral(strTrim(sqlLit(val), "'")) + "%')"
+//@   ensures pattern: result1 == nil ==> unbox(unbox(result0, "*sql.LogicalOp").clauses[0], "*sql.RawObject").val == likeOp + "(samples.string, '%" + likeLiteral(sqlEsc(val)) + "%')"
 //@   ensures is-true: result1 == nil ==> isIntCmp(result0) && opOf(result0) == "==" && intOf(result0) == 1
 //@   replay:
 //@     import "strings"
